@@ -83,3 +83,63 @@ def bounded_plain_write(opts):
         if len(bad) >= 3:
             break
     return bad
+
+
+# ---- plaintext data_received: all segmentations of small streams (bounded stand-in for L3-C01) ---------------
+def _frames_bytes(frames):
+    return b"".join(b"\x00" + wire.enc_varuint(len(p)) + wire.enc_varuint(t) + p for t, p in frames)
+
+
+def data_received_check(frames, cuts, mk):
+    """Feed the stream of `frames` cut at `cuts` (sorted offsets) as chunks of type mk; after every chunk the
+    delivered packets must be exactly the frames completely received so far and the rest must be retained."""
+    h, _, packets, _, loop = _plain_helper()
+    try:
+        stream = _frames_bytes(frames)
+        bounds = [0] + list(cuts) + [len(stream)]
+        for a, b in zip(bounds, bounds[1:]):
+            h.data_received(mk(stream[a:b]))
+            want = wire.pf_msgs(stream[:b])
+            if tuple(packets) != tuple(want):
+                return f"after {b} bytes delivered {packets!r}, expected {list(want)!r}"
+            if any(type(p[1]) is not bytes for p in packets):
+                return "payload not bytes"
+            tail = wire.pf_tail(stream[:b])
+            have = (h._buffer or b"")[: h._buffer_len] if h._buffer_len else b""
+            if bytes(have) != tail:
+                return f"after {b} bytes retained {bytes(have)!r}, expected {tail!r}"
+        return None
+    finally:
+        loop.close()
+
+
+def bounded_data_received(opts):
+    import random
+    rnd = random.Random(opts.get("seed", 0))
+    frame_pool = [(1, b""), (5, b"a"), (127, b"bc"), (128, b"d" * 3), (300, b"e" * 130), (16384, b"f" * 2)]
+    bad = []
+    mks = [bytes, bytearray, lambda b: memoryview(bytes(b))]
+    n = 0
+    for k in (1, 2, 3):
+        for frames in itertools.product(frame_pool, repeat=k):
+            if k == 3 and rnd.random() > 0.15:
+                continue
+            stream_len = len(_frames_bytes(frames))
+            cutsets = [()] + [(c,) for c in range(1, stream_len)]
+            if stream_len <= 14:
+                cutsets += list(itertools.combinations(range(1, stream_len), 2))
+            else:
+                cutsets += [tuple(sorted(rnd.sample(range(1, stream_len), 2))) for _ in range(25)]
+                cutsets += [tuple(sorted(rnd.sample(range(1, stream_len), min(5, stream_len - 1)))) for _ in range(10)]
+            for cuts in cutsets:
+                n += 1
+                try:
+                    err = data_received_check(frames, cuts, mks[n % 3])
+                except Exception as e:
+                    err = f"raised {type(e).__name__}: {e}"
+                if err:
+                    bad.append({"frames": [(t, len(p)) for t, p in frames], "cuts": list(cuts), "chunk_type": ["bytes", "bytearray", "memoryview"][n % 3], "error": err[:200]})
+                    if len(bad) >= 3:
+                        return bad
+    bounded_data_received.count = n
+    return bad
